@@ -198,8 +198,9 @@ Qed.
 
 (* ------------------------------------------------------------------ the parsed file *)
 Record st_rel (fixed : bool) (rf : raw_file) (st : symtab) : Prop := mk_st_rel {
-  sr_files : st_files st = rf_files rf;
-  sr_origins : st_origins st = rf_origins rf;
+  (* the two HashMaps: same lookups (the representation of the map is free) *)
+  sr_files : forall k, assoc_last k (st_files st) = assoc_last k (rf_files rf);
+  sr_origins : forall k, assoc_last k (st_origins st) = assoc_last k (rf_origins rf);
   sr_pubs : st_publics st = sort_by pub_lt (rf_publics rf);
   sr_funcs : st_funcs st = into_rangemap_safe_p func_eqb (fin_list fixed (rf_funcs rf));
   sr_fd : exists wl, win_collect [] (rf_win_fd rf) = Ret wl /\ Forall (win_prov (rf_win_fd rf)) wl /\
